@@ -65,12 +65,21 @@ def make_job(rng, jid, option=None, **kw):
         calls.append({"obj": 0, "call": "sample"})
         if rng.random() < 0.5:
             calls.append({"obj": 0, "call": "sample"})
-    calls.append({"obj": 0, "call": "drive", "max": max_it, "state": True, "size": size, "samples": samples, "past_end": 2})
+    via = "iterate_n" if rng.random() < 0.3 else "iterate"
+    calls.append({"obj": 0, "call": "drive", "max": max_it, "state": True, "size": size, "samples": samples, "past_end": 2, "via": via})
     calls.append({"obj": 0, "call": "get_output"})
     calls.append({"obj": 0, "call": "finalize"})
     info["samples"] = samples
     info["pre_sample"] = sum(1 for c in calls if c["call"] == "sample")
     info["reuse"] = reuse
+    info["via"] = via
+    info["poll_k"] = None
+    if rng.random() < 0.35 and not fractional_none:
+        # the same script once more, driven ONLY by iterate_n(k) with is_complete() polled before each call
+        k = rng.choice([1, 3, 7])
+        info["poll_k"] = k
+        calls += [{"obj": 0, "call": "setup", "script": 0}, {"obj": 0, "call": "poll", "how": "is_complete", "step": ["iterate_n", k], "max": 1000, "peek": True},
+                  {"obj": 0, "call": "is_complete"}, {"obj": 0, "call": "get_output", "full": False}, {"obj": 0, "call": "finalize"}]
     if not samples and not info["pre_sample"] and rng.random() < 0.6 and not fractional_none:
         # the same script through simulate_script on the (now used) engine object: the same records
         calls.append({"obj": 0, "call": "simulate", "script": 0, "full": True})
@@ -98,7 +107,11 @@ def unpack(job, r):
     inits = []
     for x in res:
         inits += lc.init_failures(x)
-    return {"inits": inits, "meta": setup["meta"], "T0": setup["T"], "X0": setup["X"], "T": drive["T"], "U": drive["U"], "X": drive["X"],
+    poll = None
+    if "poll" in byc:
+        i0 = [i for i, c in enumerate(job["calls"]) if c["call"] == "poll"][0]
+        poll = {"ret": res[i0]["ret"], "complete_after": res[i0 + 1]["ret"], "hash": res[i0 + 2]["ret"]["hash"]}
+    return {"poll": poll, "inits": inits, "meta": setup["meta"], "T0": setup["T"], "X0": setup["X"], "T": drive["T"], "U": drive["U"], "X": drive["X"],
             "C": drive["C"], "progress": drive["progress"], "out": out, "C0": byc["is_complete"][0]["ret"], "sims": sims,
             "script_changed": setup.get("script_changed", [])}
 
@@ -184,6 +197,25 @@ def oracle(job, ob):
                     bad.append(("completion-step", "completion reported after %d steps, the first step beyond t_max is %d" % (got, n_exact), got, n_exact))
                 if not (T[got] > tmax) or (got >= 2 and T[got - 1] > tmax and info["dyadic"]):
                     bad.append(("completion-time", "completion not at the first step time beyond t_max", [T[got - 1], T[got]], tmax))
+    # ---- the run driven only by iterate_n(k) + is_complete(): completion is reported after the expected number of steps
+    pl = ob.get("poll")
+    if pl and info.get("poll_k"):
+        k = info["poll_k"]
+        ncl = pl["ret"]["ncalls"]
+        if ncl >= 1000 and not fixed and not (tmax >= 0 and pl["ret"]["T"] > tmax):
+            notes_cap = True       # a Gillespie run with more events than the cap of this driver: nothing to judge
+        elif ncl >= 1000 or pl["complete_after"] is not True:
+            bad.append(("is-complete-after-iterate_n", "driven by `while not is_complete(): iterate_n(%d)`: is_complete() is still %r after %d calls (clock %r, t_max %r)"
+                        % (k, pl["complete_after"], ncl, pl["ret"]["T"], tmax), {"calls": ncl, "is_complete": pl["complete_after"]}, {"is_complete": True}))
+        elif fixed and tmax >= 0:
+            n_exact = int(frac(tmax) / frac(dt)) + 1
+            want = -(-n_exact // k)
+            okc = (ncl == want) if info["dyadic"] else abs(ncl - want) <= 1
+            if not okc:
+                bad.append(("completion-step:iterate_n", "driven by `while not is_complete(): iterate_n(%d)`: %d calls were made, the first step beyond t_max is step %d (%d calls)"
+                            % (k, ncl, n_exact, want), ncl, want))
+        if first_false is not None and not manual and ncl < 1000 and pl["complete_after"] is True and pl["hash"] != out["hash"]:
+            bad.append(("records:iterate_n", "the run driven by iterate_n(%d) + is_complete() does not record what the step-by-step run records" % k, pl["hash"], out["hash"]))
     if tmax > 0 and not close(ob["progress"], frac(100) * frac(T[-1]) / frac(tmax), rel=1e-9):
         bad.append(("progress", "get_progress() is not 100*t/t_max", ob["progress"], float(100 * T[-1] / tmax)))
     if tmax <= 0 and ob["progress"] != 0.0:
@@ -256,13 +288,20 @@ def oracle(job, ob):
     elif policy == "on_interval":
         if iv > 0:
             fiv = frac(iv)
-            fl = []
+            fl, cand = [], []
             for n in range(0, last + 1):
                 q = fT[n] / fiv
                 r = round(q)
-                if q != r and abs(q - r) < Fraction(1, 10 ** 9) * max(1, abs(r)):
-                    ambiguous = True
-                fl.append(math.floor(q))
+                f0 = math.floor(q)
+                # the double quotient may land on the other side of a nearby integer: both floors are possible
+                near = q != r and abs(q - r) < Fraction(1, 10 ** 9) * max(1, abs(r))
+                cand.append((min(f0, r - 1) if near else f0, max(f0, r) if near else f0))
+                fl.append(f0)
+            for n in range(1, last + 1):
+                certain_yes = cand[n][0] > cand[n - 1][1]
+                certain_no = cand[n][1] <= cand[n - 1][0]
+                if not (certain_yes or certain_no):
+                    ambiguous = True      # only when the rounding can change whether the step is recorded
             expected = [0] + [n for n in range(1, last + 1) if fl[n] > fl[n - 1]]
             # every multiple is covered by the first step at or after it
     else:
@@ -358,6 +397,13 @@ def run(ctx):
             kw["mode"] = "none"
         policy = lc.POLICIES[(i // 3) % 4]
         max_steps = 120 if option != "gillespie" else 40
+        if i % 25 == 7 or i % 25 == 20:
+            # t / sampling_interval beyond 2^31 (interval around 1 ns, a few steps of 1 s), grid and graph
+            kw = {"huge_ratio": True, "space_kind": ["grid", "graph"][(i // 25) % 2] if i % 25 == 7 else ["graph", "grid"][(i // 25) % 2]}
+            option = ["euler", "tauleap", "euler", "gillespie"][(i // 25) % 4] if i % 25 == 7 else "tauleap"
+        if i % 25 == 12:
+            kw = {"nearmiss": True}
+            option = ["euler", "tauleap"][(i // 25) % 2]
         jobs.append(make_job(rng, "s%d" % i, option, policy=policy, max_steps=max_steps, **kw))
     res = lc.run_jobs(jobs, kind="plain", chunk=ctx.n(10, 60), parallel=ctx.n(6, 8), stall=ctx.n(15, 40))
     ops, metas = [], []
@@ -371,6 +417,12 @@ def run(ctx):
         ctx.count("tmax_explicit" if info["explicit_tmax"] else "tmax_default")
         if info["samples"] or info["pre_sample"]:
             ctx.count("with_explicit_samples")
+        if info.get("huge_ratio"):
+            ctx.count("interval_ratio_beyond_2^31_%s" % info["space"])
+        if info.get("poll_k"):
+            ctx.count("driven_by_iterate_n_and_is_complete")
+        if info.get("via") == "iterate_n":
+            ctx.count("step_by_step_via_iterate_n")
         if info.get("fractional_none"):
             ctx.count("gillespie_none_on_fractional_amounts_not_simulated_to_completion")
         case = {"job": {k: job[k] for k in ("id", "engines", "scripts", "calls", "info")}}
